@@ -16,19 +16,32 @@ import sys
 
 import numpy as np
 
-from ..contracts import attach, detach_all
+from ..contracts import attach, detach_all, quiet
+from ..polyhard import cfg32, clear_caches, warm32, layouts, is_c_contig, contig, order_containers
+from ..util import precision
 
 RULE = ('every *_seq routine x order lists (ALL non-empty ascending subsets of {0..6}; gapped lists up to 40; singletons; '
         'lists starting at 0/1/2/>=3) x coordinate-shape classes (0-D, 1-D, 1-D of length len(orders), 2-D square, 2-D non-square, '
         '2-D whose leading / trailing dimension equals len(orders), 3-D, 3-D with a middle dimension equal to len(orders), float32); '
         'two-index families: random lists of (n,m) in arbitrary order with repeated |m|, mixed signs, duplicates and singletons; '
         'xy: meshgrid, separable (1,N)/(M,1), general (cartesian_grid=False) coordinates. A case is non-trivial when the list '
-        'asks for at least one order >= 1 ; distinct = distinct descriptor (routine, order list, parameters, coordinate class)')
+        'asks for at least one order >= 1 ; distinct = distinct descriptor (routine, order list, parameters, coordinate class). Hardening classes: '
+        'history units per routine (memo tables emptied where possible, then {float32 low | float32 high | no} session under config.precision = 32, then '
+        'order lists [0..5], [2,9], [3,18,19], [17], [0,41], [16,17,18], [40,41], [1,7,33], [0..41], ... or the reverse, interleaved over parameter sets '
+        'sharing alpha / beta / alpha+beta), across the routines sharing the Jacobi table (cheby*_seq, legendre_seq, Qcon_seq, zernike_nm(_der)_seq and '
+        'their *_der_seq forms alternating with jacobi(_der)_seq of the equivalent parameters, Qbfs_seq, Q2d_seq); aliasing (one coordinate object and one '
+        'order-list object shared by consecutive calls, arguments must be left intact, earlier results must survive, results overwritten before asking '
+        'again); memory layouts of the coordinates (Fortran, transposed view, strided, window, reversed strides; 1-D, 2-D, 3-D); containers (list, tuple, '
+        'int32 / int64 ndarray, list of numpy ints, range; numpy float64 parameters; term lists as tuples / lists / int ndarrays); config.precision = 32 '
+        'with float32 / float64 / 0-D coordinates (single-precision tolerance); order lists reaching 60, 100 (thorough: 150, 250)')
 ASSUMPTIONS = ['the single-order routine is the oracle (its own correctness is C07 / C09)',
                'one-index order lists are in-domain when non-empty, non-negative and strictly ascending (the documented contract: '
                '"sorted orders"); other lists reaching a contract are excluded and counted',
-               'coordinates of one call share one shape (r,t / x,y) except the documented separable xy grids']
-REQUIRED = ['seq.jacobi_seq', 'seq.jacobi_der_seq', 'seq.legendre_seq', 'seq.legendre_der_seq',
+               'coordinates of one call share one shape (r,t / x,y) except the documented separable xy grids',
+               'orders are python ints or numpy int32 / int64 / intp (8/16-bit numpy integers are out of domain: excluded and counted)',
+               'single-precision class (float32 coordinates or config.precision = 32): tolerance 2e-4',
+               'emptying prysm\'s memo tables (functools cache_clear, where a helper offers it) never changes what a correct library returns']
+REQUIRED = ['alias.arguments-intact', 'alias.result-stable', 'seq.jacobi_seq', 'seq.jacobi_der_seq', 'seq.legendre_seq', 'seq.legendre_der_seq',
             'seq.cheby1_seq', 'seq.cheby1_der_seq', 'seq.cheby2_seq', 'seq.cheby2_der_seq',
             'seq.cheby3_seq', 'seq.cheby3_der_seq', 'seq.cheby4_seq', 'seq.cheby4_der_seq',
             'seq.hermite_He_seq', 'seq.hermite_He_der_seq', 'seq.hermite_H_seq', 'seq.hermite_H_der_seq',
@@ -114,6 +127,25 @@ def row_errors(got, ref, extra_scale, rtol):
     return bad, worst
 
 
+HISTORY = [None]        # class label of the history the workload is in (set by the history units), for mechanism keys
+
+
+def mechanism(recheck, coords):
+    """Mechanism class of a failure, found by re-running the ORIGINAL sequence routine and the single-order oracle quietly:
+    memory-layout (right for C-contiguous private copies of the coordinates), not-repeatable (right when the same call is made
+    again - e.g. an inner contract has already emptied the tables), history-dependent[:<history class>] (right once the memoised recurrence coefficients have been emptied), '' otherwise."""
+    try:
+        if recheck(None):
+            return 'not-repeatable'
+        if any(not is_c_contig(c) for c in coords) and recheck(contig):
+            return 'memory-layout'
+        if clear_caches() and recheck(None):
+            return 'history-dependent' + (':' + HISTORY[0] if HISTORY[0] else '')
+    except Exception:  # noqa
+        pass
+    return ''
+
+
 def ravel_route_ok(call_1d, ref, rtol):
     """Does the same routine reproduce the reference when the coordinates are flattened to 1-D?  (Distinguishes a
     dimensionality/broadcast defect from a value defect.)"""
@@ -159,6 +191,15 @@ def make_one(fn):
 
     def classify(ns, params, x, ref, rtol):
         """Key for a failure on an in-domain call."""
+        def recheck(tr):
+            xx = x if tr is None else tr(x)
+            with np.errstate(all='ignore'):
+                got = np.asarray(ORIG[fn](ns, *params, xx))
+                r2, e2 = reference(ns, params, xx)
+            return got.shape == r2.shape and not row_errors(got, r2, e2, rtol)[0]
+        mech = mechanism(recheck, [x])
+        if mech:
+            return f'C08/{fn}/{mech}', f'the routine is right for the same request once the layout / call history is removed ({mech})'
         if x.ndim != 1 and ravel_route_ok(lambda: ORIG[fn](ns, *params, x.reshape(-1)), ref, rtol):
             return nd_key(fn), 'is correct for the flattened coordinates but not for this coordinate shape'
         return None, None
@@ -166,6 +207,10 @@ def make_one(fn):
     def check(args, kwargs, result=None, exc=None):
         ns_raw, params, x = parse_one(fn, args, kwargs)
         ns = in_domain_orders(ns_raw)
+        if ns is not None and any(isinstance(v, (np.integer, np.ndarray)) and v.dtype.kind in 'iu' and v.dtype.itemsize < 4
+                                  for v in ([ns_raw] if isinstance(ns_raw, np.ndarray) else list(ns_raw)) + list(params)):
+            CTX.skip(f'{fn}: orders / parameters given as 8/16-bit numpy integers (out of domain: such arithmetic overflows by nature)')
+            return
         if ns is None:
             CTX.skip(f'{fn}: order list not non-negative strictly ascending (out of domain)')
             return
@@ -176,7 +221,7 @@ def make_one(fn):
             return
         CTX.observe(mon)
         k = len(ns)
-        f32 = x.dtype == np.float32
+        f32 = x.dtype == np.float32 or cfg32()
         rtol = RTOL32 if f32 else RTOL
         desc = {'fn': fn, 'ns': ns if k <= 12 else ns[:12] + ['...'], 'params': [float(p) for p in params], 'xshape': list(x.shape),
                 'xclass': xcls(x.shape, k), 'list': list_class(ns), 'dtype': str(x.dtype)}
@@ -258,7 +303,7 @@ def make_two(fn):
             return
         CTX.observe(mon)
         k = len(idx)
-        f32 = any(c.dtype == np.float32 for c in coords)
+        f32 = any(c.dtype == np.float32 for c in coords) or cfg32()
         rtol = RTOL32 if f32 else RTOL
         desc = {'fn': fn, 'idx': idx if k <= 10 else idx[:10] + ['...'], 'shapes': [list(c.shape) for c in coords],
                 'xclass': xcls(coords[0].shape, k), 'dtype': str(coords[0].dtype)}
@@ -271,6 +316,16 @@ def make_two(fn):
             if fn == 'xy_seq' and extra_desc['cartesian_grid'] and coords[0].ndim < 2:
                 # xy() treats 0-D/1-D x, y as the axes of a cartesian grid (outer product), xy_seq() as a list of points
                 return 'C08/xy_seq/cartesian_grid/x.ndim<2'
+
+            def recheck(tr):
+                cc = coords if tr is None else [tr(c) for c in coords]
+                with np.errstate(all='ignore'):
+                    got = np.asarray(recall(cc))
+                    r2 = np.array([single(i, cc) for i in idx])
+                return got.dtype != object and got.shape == r2.shape and not row_errors(got, r2, None, rtol)[0]
+            mech = mechanism(recheck, coords)
+            if mech:
+                return f'C08/{fn}/{mech}'
             if same_shape and coords[0].ndim != 1 and ravel_route_ok(lambda: recall([c.reshape(-1) for c in coords]), ref, rtol) \
                     and not (fn == 'xy_seq' and extra_desc['cartesian_grid']):
                 return f'C08/{fn}/x.ndim!=1'
@@ -324,6 +379,13 @@ def install():
         attach(mods[sub], fn, post=post, on_raise=on_raise)
 
 
+def install_monitors(ctx):
+    """Attach the call-level contracts for vp/pytest_monitors.py (the repository's own tests as traffic)."""
+    global CTX
+    CTX = ctx
+    install()
+
+
 # ------------------------------------------------------------------------------------------ workload
 def domain(fn):
     if fn.startswith('hermite'):
@@ -366,20 +428,290 @@ def one_index_lists(ctx, rng):
     extra = [[k] for k in (7, 10, 25, 40)]
     extra += [[0, 40], [1, 40], [2, 40], [3, 40], [0, 2, 5, 11, 23, 40], [1, 3, 6, 7, 30], [2, 4, 7, 12, 13, 14, 39], [5, 6, 7, 8, 9, 10],
               [3, 5, 8, 13, 21, 34], list(range(0, 41)), list(range(1, 41)), list(range(2, 30, 3)), list(range(0, 41, 2)), list(range(1, 40, 2))]
-    n_rand = ctx.pick(12, 200)
+    n_rand = ctx.pick(12, 600)
     for _ in range(n_rand):
-        k = int(rng.integers(1, 9))
-        top = int(rng.choice([8, 12, 20, 40]))
+        k = int(rng.integers(1, 9 if ctx.quick else 13))
+        top = int(rng.choice([8, 12, 20, 40] if ctx.quick else [8, 12, 20, 40, 60, 100, 150]))
         extra.append(sorted(int(v) for v in rng.choice(top + 1, size=min(k, top + 1), replace=False)))
     if not ctx.quick:
-        for r in range(1, 5):
-            extra += [list(c) for c in itertools.combinations(range(11), r) if max(c) >= 7]      # subsets reaching 7..10
+        for r in range(1, 6):
+            extra += [list(c) for c in itertools.combinations(range(12), r) if max(c) >= 7]      # subsets reaching 7..11
+        extra += [list(range(0, 151)), list(range(1, 151, 2)), [0, 150], [149, 150], list(range(100, 151))]
     return subsets, extra
+
+
+
+# ------------------------------------------------------------------------------------------ hardening classes (HARDENING.md A-D)
+PARAMS = {2: [(0.3, 1.2), (-0.5, 0.5), (0.0, 0.0), (2.5, -0.75)], 1: [(0.5,), (0.0,), (-0.75,)], 0: [()]}
+HIST_LISTS = [[0, 1, 2, 3, 4, 5], [2, 9], [3, 18, 19], [17], [0, 41], [16, 17, 18], [40, 41], [1, 7, 33], list(range(0, 42)), [5], [0, 20, 40], [19, 41], [2], [0, 1]]
+HIST_VARIANTS = ('f32-low-orders-then-f64', 'f32-high-orders-then-f64', 'f64-low-then-high', 'f64-high-then-low')
+
+
+def xdom(fn, rng, shape):
+    lo, hi = domain(fn)
+    return np.asarray(rng.uniform(lo, hi, size=shape))
+
+
+def history_one(ctx, P, fn, variant, rng):
+    """Class B/C: one sequence routine, parameter sets sharing alpha / beta / alpha+beta interleaved list by list; the memo tables
+    are emptied first (where possible), optionally filled by a float32 session (config.precision = 32), then low lists, lists
+    reaching >= 18 and >= 40, then descending ones - each call judged by the contract against the single-order routine."""
+    npar = ONE_INDEX[fn][2]
+    plist = {2: [(0.25, -0.25), (0.25, 0.75), (-0.25, 0.25), (0.0, 4.0)], 1: [(0.5,), (-0.5,), (1.5,)], 0: [()]}[npar]
+    single = ONE_INDEX[fn][1]
+    x32 = xdom(fn, rng, (3,)).astype(np.float32)
+    HISTORY[0] = variant
+    try:
+        clear_caches()
+        if variant.startswith('f32'):
+            ns32 = [0, 1, 2, 3, 4, 5] if 'low' in variant else [0, 7, 41]
+            warm32(*[lambda p=p: (getattr(P, fn)(ns32, *p, x32), getattr(P, single)(ns32[-1], *p, x32)) for p in plist])
+        lists = HIST_LISTS if variant != 'f64-high-then-low' else HIST_LISTS[::-1]
+        for step, ns in enumerate(lists):
+            x = xdom(fn, rng, (4,) if step % 3 else (2, 3))
+            for p in plist:
+                desc = {'wl': 'history', 'fn': fn, 'ns': ns if len(ns) <= 8 else [ns[0], '..', ns[-1]], 'params': list(p), 'step': step, 'variant': variant,
+                        'class': f'{fn}:history:{variant}'}
+                ctx.case(desc, nontrivial=ns[-1] >= 1)
+                call(ctx, P, fn, desc, ns, *p, x)
+    finally:
+        HISTORY[0] = None
+
+
+def history_shared(ctx, P, variant, rng):
+    """Class B across routines that share the Jacobi recurrence tables: cheby*_seq / legendre_seq / Qcon_seq / zernike_nm_seq and
+    their *_der_seq forms alternate with jacobi_seq / jacobi_der_seq of the equivalent parameters, low lists first."""
+    HISTORY[0] = variant
+    try:
+        clear_caches()
+        x32 = rng.uniform(-0.9, 0.9, 3).astype(np.float32)
+        if variant.startswith('f32'):
+            top = 5 if 'low' in variant else 41
+            warm32(*[lambda fn=fn: getattr(P, fn)([0, top], x32) for fn in ('cheby1_seq', 'cheby2_der_seq', 'legendre_seq', 'cheby3_seq', 'cheby4_der_seq')],
+                   lambda: P.jacobi_seq([0, top], 0, 4, x32), lambda: P.Qcon_seq([top], np.abs(x32)))
+        lists = HIST_LISTS if variant != 'f64-high-then-low' else HIST_LISTS[::-1]
+        for step, ns in enumerate(lists):
+            x = rng.uniform(-1, 1, 5)
+            u = rng.uniform(0, 1, 5)
+            t = rng.uniform(0, 2 * np.pi, 5)
+            calls = [('cheby1_seq', (ns, x)), ('jacobi_seq', (ns, -0.5, -0.5, x)), ('cheby1_der_seq', (ns, x)), ('jacobi_der_seq', (ns, -0.5, -0.5, x)),
+                     ('cheby2_seq', (ns, x)), ('jacobi_seq', (ns, 0.5, 0.5, x)), ('cheby3_der_seq', (ns, x)), ('jacobi_seq', (ns, -0.5, 0.5, x)),
+                     ('cheby4_seq', (ns, x)), ('jacobi_der_seq', (ns, 0.5, -0.5, x)), ('legendre_seq', (ns, x)), ('jacobi_seq', (ns, 0.0, 0.0, x)),
+                     ('legendre_der_seq', (ns, x)), ('Qcon_seq', (ns, u)), ('jacobi_seq', (ns, 0, 4, x)), ('jacobi_der_seq', (ns, 0, 4, x)),
+                     ('zernike_nm_seq', ([(2 * n + 4, 4 if i % 2 else -4) for i, n in enumerate(ns[-6:])] + [(2 * ns[-1], 0)], u, t)),
+                     ('zernike_nm_der_seq', ([(2 * n + 1, 1) for n in ns[-4:]] + [(2 * ns[0], 0)], u + 0.01, t)),
+                     ('Qbfs_seq', (ns, u)), ('Q2d_seq', ([(n, 0) for n in ns[-5:]] + [(ns[-1], 2), (ns[0], -2), (ns[-1], 1)], u, t))]
+            for fn, args in calls:
+                desc = {'wl': 'history', 'fn': fn, 'step': step, 'ns': ns if len(ns) <= 8 else [ns[0], '..', ns[-1]], 'variant': variant, 'class': f'{fn}:history-shared-tables:{variant}'}
+                ctx.case(desc)
+                call(ctx, P, fn, desc, *args)
+    finally:
+        HISTORY[0] = None
+
+
+def alias_one(ctx, P, fn, rng):
+    """Class A: one coordinate object and one order-list object shared by consecutive calls of the sequence routine (and, through the
+    contract's oracle, of the single-order routine); earlier results must not change; returned arrays may be overwritten."""
+    npar = ONE_INDEX[fn][2]
+    par = PARAMS[npar][0]
+    for cls, shp in (('1d', (5,)), ('2d', (2, 3)), ('0d', ())):
+        x0 = xdom(fn, rng, shp)
+        x = x0.copy()
+        kept = []
+        for step, ns in enumerate(([0, 1, 2, 3], [2, 5], [1], [0, 3, 18, 19], [2, 5], [0, 1, 2, 3], [7, 41])):
+            cont = ns if step % 2 else np.array(ns)
+            desc = {'wl': 'alias', 'fn': fn, 'ns': ns, 'params': list(par), 'step': step, 'x': cls, 'class': f'{fn}:shared-arguments:{cls}'}
+            ctx.case(desc, nontrivial=ns[-1] >= 1)
+            got = call(ctx, P, fn, desc, cont, *par, x)
+            if isinstance(got, np.ndarray):
+                kept.append((ns, got, got.copy()))
+            ctx.require('alias.arguments-intact', np.array_equal(x, x0) and list(cont) == ns, f'C08/{fn}/arguments-modified',
+                        f'{fn} modified the coordinate array or the order list it was given (the single-order routine evaluated afterwards on the same '
+                        'objects - which is what a caller comparing the two forms does - no longer sees the same request)', desc)
+            x[...] = x0
+        for ns, got, snap in kept:
+            desc = {'wl': 'alias', 'fn': fn, 'ns': ns, 'x': cls, 'class': f'{fn}:result-stability:{cls}'}
+            ctx.require('alias.result-stable', np.array_equal(got, snap, equal_nan=True), f'C08/{fn}/result-changed-by-later-call',
+                        f'{fn}: an array returned earlier was modified by a later call (it no longer equals the single-order values)', desc)
+            if got.flags.writeable and not np.shares_memory(got, x):
+                got[...] = np.nan
+        desc = {'wl': 'alias', 'fn': fn, 'ns': [0, 1, 2, 3], 'params': list(par), 'x': cls, 'class': f'{fn}:after-result-overwritten:{cls}'}
+        ctx.case(desc)
+        call(ctx, P, fn, desc, [0, 1, 2, 3], *par, x)
+        call(ctx, P, fn, desc, [2, 5], *par, x)
+
+
+def alias_two(ctx, P, rng):
+    for cls, shp in (('1d', (5,)), ('2d', (2, 3)), ('0d', ())):
+        r0 = np.asarray(rng.uniform(0.05, 1.0, shp))
+        t0 = np.asarray(rng.uniform(0, 2 * np.pi, shp))
+        r, t = r0.copy(), t0.copy()
+        kept = []
+        zl = [[(4, 2), (4, -2), (2, 0)], [(3, 1), (5, 1), (3, -1)], [(4, 2), (4, -2), (2, 0)], [(20, 4), (41, -1), (6, 0)]]
+        ql = [[(3, 1), (3, -1), (2, 0)], [(0, 2), (4, 2), (1, -2)], [(3, 1), (3, -1), (2, 0)], [(18, 3), (41, -1), (19, 0)]]
+        xl = [[(2, 3), (0, 1), (2, 0)], [(1, 1)], [(2, 3), (0, 1), (2, 0)], [(18, 0), (0, 19)]]
+        for step in range(4):
+            for fn, args, kw in (('zernike_nm_seq', (zl[step], r, t), {'norm': bool(step % 2)}), ('zernike_nm_der_seq', (zl[step], r, t), {'norm': not step % 2}),
+                                 ('Q2d_seq', (ql[step], r, t), {}), ('xy_seq', (xl[step], r, t), {'cartesian_grid': False})):
+                desc = {'wl': 'alias', 'fn': fn, 'step': step, 'x': cls, 'class': f'{fn}:shared-arguments:{cls}'}
+                ctx.case(desc)
+                got = call(ctx, P, fn, desc, *args, **kw)
+                if isinstance(got, np.ndarray):
+                    kept.append((fn, got, got.copy()))
+                ctx.require('alias.arguments-intact', np.array_equal(r, r0) and np.array_equal(t, t0), f'C08/{fn}/arguments-modified',
+                            f'{fn} modified a coordinate array it was given', desc)
+                r[...] = r0
+                t[...] = t0
+        for fn, got, snap in kept:
+            desc = {'wl': 'alias', 'fn': fn, 'x': cls, 'class': f'{fn}:result-stability:{cls}'}
+            ctx.require('alias.result-stable', np.array_equal(got, snap, equal_nan=True), f'C08/{fn}/result-changed-by-later-call',
+                        f'{fn}: an array returned earlier was modified by a later call', desc)
+
+
+def layout_units(ctx, P, rng, fns):
+    """Class A, memory layout of the coordinate arrays (Fortran order, transposed views, strided slices, windows, reversed strides)."""
+    for fn in fns:
+        npar = ONE_INDEX[fn][2]
+        par = PARAMS[npar][1 % len(PARAMS[npar])]
+        for base in (xdom(fn, rng, (3, 4)), xdom(fn, rng, (6,)), xdom(fn, rng, (2, 3, 2))):
+            for lab, xv in layouts(base):
+                if lab == 'C':
+                    continue
+                for ns in ([0, 1, 2, 3], [2, 18]):
+                    desc = {'wl': 'layout', 'fn': fn, 'ns': ns, 'params': list(par), 'layout': lab, 'ndim': base.ndim, 'class': f'{fn}:layout:{lab}:{base.ndim}d'}
+                    ctx.case(desc)
+                    call(ctx, P, fn, desc, ns, *par, xv)
+
+
+def layout_two(ctx, P, rng):
+    for rb, tb in ((rng.uniform(0.05, 1, (3, 4)), rng.uniform(0, 6.28, (3, 4))), (rng.uniform(0.05, 1, (6,)), rng.uniform(0, 6.28, (6,)))):
+        Lr, Lt = layouts(rb), layouts(tb)
+        for a, (lr, rv) in enumerate(Lr):
+            for b, (lt, tv) in enumerate(Lt):
+                if (a == 0 and b == 0) or (a != b and a and b):
+                    continue
+                lab = f'{lr}/{lt}'
+                for fn, lst, kw in (('zernike_nm_seq', [(5, 3), (5, -3), (2, 0), (18, 2)], {'norm': False}), ('zernike_nm_der_seq', [(4, 0), (3, 1), (3, -1)], {}),
+                                    ('Q2d_seq', [(3, 2), (3, -2), (2, 0), (18, 1)], {}), ('xy_seq', [(2, 3), (0, 1), (2, 0)], {'cartesian_grid': False})):
+                    desc = {'wl': 'layout', 'fn': fn, 'layout': lab, 'ndim': rb.ndim, 'class': f'{fn}:layout:{lab}:{rb.ndim}d'}
+                    ctx.case(desc)
+                    call(ctx, P, fn, desc, lst, rv, tv, **kw)
+    xv = rng.uniform(-1, 1, 4)
+    yv = rng.uniform(-1, 1, 3)
+    X, Y = np.meshgrid(xv, yv)
+    for (lx, XV), (ly, YV) in zip(layouts(X), layouts(Y)):
+        desc = {'wl': 'layout', 'fn': 'xy_seq', 'layout': lx, 'grid': 'cartesian', 'class': f'xy_seq:layout:cartesian:{lx}'}
+        ctx.case(desc)
+        call(ctx, P, 'xy_seq', desc, [(2, 1), (0, 3), (1, 0)], XV, YV)
+
+
+def container_units(ctx, P, rng, fns):
+    for fn in fns:
+        npar = ONE_INDEX[fn][2]
+        par = PARAMS[npar][2 % len(PARAMS[npar])]
+        x = xdom(fn, rng, (4,))
+        for ns in ([0, 1, 2, 3], [2, 5, 19], [3, 4, 5], [18]):
+            for lab, cont in order_containers(ns):
+                desc = {'wl': 'containers', 'fn': fn, 'ns': ns, 'container': lab, 'params': list(par), 'class': f'{fn}:orders-as-{lab}'}
+                ctx.case(desc)
+                call(ctx, P, fn, desc, cont, *(tuple(np.float64(v) for v in par) if lab == 'tuple' else par), x)
+
+
+def container_two(ctx, P, rng):
+    r = rng.uniform(0.05, 1, 4)
+    t = rng.uniform(0, 6.28, 4)
+    for lab, mk in (('list-of-tuples', lambda L: [tuple(e) for e in L]), ('list-of-lists', lambda L: [list(e) for e in L]), ('tuple-of-tuples', lambda L: tuple(tuple(e) for e in L)),
+                    ('ndarray-int64', lambda L: np.array(L, dtype=np.int64)), ('ndarray-int32', lambda L: np.array(L, dtype=np.int32))):
+        for fn, L, kw in (('zernike_nm_seq', [(4, 2), (4, -2), (2, 0), (19, 1)], {}), ('zernike_nm_der_seq', [(5, 3), (3, -1), (0, 0)], {'norm': False}),
+                          ('Q2d_seq', [(3, 2), (3, -2), (2, 0), (19, 1)], {}), ('xy_seq', [(2, 3), (0, 1), (2, 0)], {'cartesian_grid': False})):
+            desc = {'wl': 'containers', 'fn': fn, 'terms_as': lab, 'class': f'{fn}:terms-as-{lab}'}
+            ctx.case(desc)
+            call(ctx, P, fn, desc, mk(L), r, t, **kw)
+
+
+def cfg32_units(ctx, P, rng, fns):
+    """Class C: config.precision = 32 with float32, float64 (mixed) and 0-D coordinates, judged at the single-precision tolerance."""
+    with precision(32):
+        for fn in fns:
+            npar = ONE_INDEX[fn][2]
+            for par in PARAMS[npar][:2]:
+                for ns in ([0, 1, 2, 3, 5, 8, 12], [3, 9], [0], [12], [1, 2]):
+                    for cls, x in (('f32-1d', xdom(fn, rng, (5,)).astype(np.float32)), ('f64-1d', xdom(fn, rng, (5,))),
+                                   ('f32-2d', xdom(fn, rng, (2, 3)).astype(np.float32)), ('f32-0d', xdom(fn, rng, ()).astype(np.float32))):
+                        desc = {'wl': 'cfg32', 'fn': fn, 'ns': ns, 'params': list(par), 'x': cls, 'class': f'{fn}:precision=32:{cls}'}
+                        ctx.case(desc, nontrivial=ns[-1] >= 1)
+                        call(ctx, P, fn, desc, ns, *par, x)
+
+
+def cfg32_two(ctx, P, rng):
+    with precision(32):
+        for cls, mk in (('f32-1d', lambda a: a.astype(np.float32)), ('f64-1d', lambda a: a), ('f32-2d', lambda a: a.astype(np.float32).reshape(2, 3))):
+            r = mk(rng.uniform(0.05, 1, 6))
+            t = mk(rng.uniform(0, 6.28, 6))
+            for fn, L, kw in (('zernike_nm_seq', [(n, m) for n in range(7) for m in range(-n, n + 1, 2)], {}), ('zernike_nm_seq', [(4, 2), (4, -2), (2, 0), (8, 0)], {'norm': False}),
+                              ('zernike_nm_der_seq', [(n, m) for n in range(6) for m in range(-n, n + 1, 2)], {}),
+                              ('Q2d_seq', [(n, m) for n in range(5) for m in range(-3, 4)], {}), ('xy_seq', [(2, 3), (0, 1), (2, 0), (5, 5)], {'cartesian_grid': False})):
+                desc = {'wl': 'cfg32', 'fn': fn, 'x': cls, 'opt': str(kw), 'class': f'{fn}:precision=32:{cls}'}
+                ctx.case(desc)
+                call(ctx, P, fn, desc, L, r, t, **kw)
+
+
+def high_order_units(ctx, P, rng, fns, tops):
+    """Class D: order lists far above any plausible internal table size."""
+    for fn in fns:
+        npar = ONE_INDEX[fn][2]
+        lim = 60 if fn.startswith(('hermite', 'laguerre', 'dickson')) else max(tops)
+        for par in PARAMS[npar][:2]:
+            for top in tops:
+                top = min(top, lim)
+                for ns in ([top], [0, top], [17, 18, top], [top - 1, top], list(range(0, top + 1, 7)) + [top]):
+                    ns = sorted(set(ns))
+                    x = xdom(fn, rng, (4,))
+                    desc = {'wl': 'high-order', 'fn': fn, 'ns': ns if len(ns) <= 6 else [ns[0], '..', ns[-1]], 'params': list(par), 'class': f'{fn}:high-order'}
+                    ctx.case(desc)
+                    call(ctx, P, fn, desc, ns, *par, x)
+
+
+def hardening(ctx, P, counter):
+    fns = list(ONE_INDEX)
+
+    def mine():
+        counter[0] += 1
+        return ctx.mine(counter[0])
+    for fn in fns:
+        variants = HIST_VARIANTS if not ctx.quick else [HIST_VARIANTS[(fns.index(fn)) % 2], HIST_VARIANTS[2 + (fns.index(fn) // 2) % 2]]
+        for v in variants:
+            if mine():
+                history_one(ctx, P, fn, v, ctx.rng('hist', fn, v))
+    for v in HIST_VARIANTS:
+        if mine():
+            history_shared(ctx, P, v, ctx.rng('hist-shared', v))
+    for fn in fns:
+        if mine():
+            alias_one(ctx, P, fn, ctx.rng('alias', fn))
+    if mine():
+        alias_two(ctx, P, ctx.rng('alias-two'))
+    for i in range(0, len(fns), 4):
+        if mine():
+            layout_units(ctx, P, ctx.rng('layout', i), fns[i:i + 4])
+        if mine():
+            container_units(ctx, P, ctx.rng('cont', i), fns[i:i + 4])
+        if mine():
+            cfg32_units(ctx, P, ctx.rng('cfg32', i), fns[i:i + 4])
+        if mine():
+            high_order_units(ctx, P, ctx.rng('high', i), fns[i:i + 4], ctx.pick((60, 100), (60, 100, 150, 250)))
+    if mine():
+        layout_two(ctx, P, ctx.rng('layout-two'))
+    if mine():
+        container_two(ctx, P, ctx.rng('cont-two'))
+    if mine():
+        cfg32_two(ctx, P, ctx.rng('cfg32-two'))
 
 
 def _run(ctx):
     import prysm.polynomials as P
     from prysm.polynomials import laguerre_der_seq  # noqa (exported name)
+    hardening(ctx, P, [-1])
     rng = ctx.rng('c08')
     subsets, extra = one_index_lists(ctx, rng)
     params = {2: [(0.3, 1.2), (-0.5, 0.5), (0.0, 0.0), (2.5, -0.75)], 1: [(0.5,), (0.0,), (-0.75,)], 0: [()]}
@@ -392,6 +724,8 @@ def _run(ctx):
             idx += 1
             if not ctx.mine(idx):
                 continue
+            if ns[-1] > 60 and fn.startswith(('hermite', 'laguerre', 'dickson')):
+                continue        # values beyond the double range: nothing to compare (orders to 60 are covered)
             k = len(ns)
             exh = li < len(subsets)
             plist = params[npar]
@@ -427,8 +761,8 @@ def _run(ctx):
     def two_shapes(k):
         return [s for s in coord_shapes(k, rng, not ctx.quick)]
 
-    N2 = ctx.share(ctx.pick(160, 2400))
-    zmax = ctx.pick(8, 16)
+    N2 = ctx.share(ctx.pick(160, 9600))
+    zmax = ctx.pick(8, 24)
     valid = [(n, m) for n in range(zmax + 1) for m in range(-n, n + 1, 2)]
     for it in range(N2):
         mode = it % 8
